@@ -113,3 +113,15 @@ func Seq2[M ~map[K]V, K comparable, V any](site string, m M) iter.Seq2[K, V] {
 		}
 	}
 }
+
+// SelectPerm is the order in which the ready cases of the select statement at site are
+// tried (see simgen/selects.go): a function of the run's seed and the site.
+func SelectPerm(site string, n int) []int {
+	mu.Lock()
+	sd := seed
+	visits["select:"+site]++
+	mu.Unlock()
+	h := fnv.New64a()
+	h.Write([]byte(site))
+	return rand.New(rand.NewSource(int64(sd ^ h.Sum64() ^ 0x5e1ec7))).Perm(n)
+}
